@@ -39,6 +39,7 @@ import (
 // ---- alphabet -------------------------------------------------------------
 
 var tags = []string{"", "tagA", "tagB"}
+
 // two daemons behind one shared port: the addresses differ only in the sock= name
 var addrs = []string{"<10.0.0.1:9618?sock=schedd_1234_5678>", "<10.0.0.1:9618?sock=startd_1234_9999>"}
 var cmds = []int{421, 60007, 9}
@@ -712,7 +713,9 @@ func runHistory(h history) runOut {
 		out.checks++
 		addr := w.effAddr(e)
 		cmdStr := fmt.Sprint(e.Cmd)
-		if sv.kind == "dropped" && r.res == "resumeerr" && r.errSid != "" && ref.sess[r.errSid] != nil {
+		if sv.kind == "dropped" && r.res == "resumeerr" && r.errSid != "" && ref.live(r.errSid) {
+			// (a session that is not live cannot have been asked for: the explicit-SessionID path reports
+			// "not found in cache" with the same error type and sends nothing)
 			// the server closed before reading: the request was not seen; the client says it was resuming errSid
 			sv = seenRec{kind: "resume", sid: r.errSid, reply: "broken"}
 		}
